@@ -379,6 +379,7 @@ func registration() {
 	b.Close()
 	vrt.Quiesce()
 }
+
 // finalizer: the peer's frames are already waiting when the endpoint is
 // built with EndPointFinalizer; the handlers its finalizer installs (after a
 // while) receive every one of them.
@@ -435,6 +436,7 @@ func finalizer() {
 	b.Close()
 	vrt.Quiesce()
 }
+
 // limit: a frame of exactly the largest accepted payload size travels among
 // small ones from another sender.
 func limit() {
@@ -495,6 +497,7 @@ func limit() {
 	b.Close()
 	vrt.Quiesce()
 }
+
 // afterFailedSends runs a scenario after two sends that failed on OTHER
 // connections of the process (one closed by its peer, one closed locally):
 // whatever a failed write leaves behind must not disturb later senders.
@@ -522,6 +525,7 @@ func afterFailedSends(inner func()) func() {
 		inner()
 	}
 }
+
 // manyHandlers: more handlers than the table's ten preallocated slots; some
 // are removed again (a free choice of which); every handler still registered
 // receives exactly the frames its filter selects.
